@@ -246,33 +246,43 @@ def reach_server(ctx, state, ids, searches, stale=()):
     return s
 
 
-def invariant(ctx, st, side):
-    """representation invariant, as conditions (used after every step)"""
-    conds = []
+def invariant_parts(ctx, st, side):
+    """representation invariant, split by the property each part belongs to.  Every session check
+    ASSUMES the whole invariant before a call and PROVES its own part after it (assume-guarantee):
+    the invariant is inductive when C08, C09 and C10 all pass, and a change that breaks only the id
+    bookkeeping is reported by C09 - not by C08 as well."""
+    parts = {"C08": [], "C09": [], "C10": [], "C12": []}
     O, S = st["O"], st["S"]
+    owner_ids = "C09" if side == "client" else "C10"
     for i in range(len(O)):
         for j in range(i):
-            conds.append(O[i] != O[j])
+            parts[owner_ids].append(O[i] != O[j])
     if st["state"] != "CLOSED" and side == "client":
         # (a server may answer a search with a non-search final response; the property does not
         # specify mismatched kinds, so the search registry is not required to follow there)
         for x in S:
-            conds.append(in_set(ctx, x, O))
+            parts["C09"].append(in_set(ctx, x, O))
     if st["state"] == "BEFORE_OPEN":
-        conds.append(len(O) == 0)
+        parts["C08"].append(len(O) == 0)
     if st["state"] == "CLOSED":
-        conds.append(len(O) == 0 or side == "server")
+        parts["C08"].append(len(O) == 0 or side == "server")
     if side == "client":
         c = st["c"]
-        conds.append(c >= 1)
+        parts["C09"].append(c >= 1)
         for x in O:
-            conds.append(ctx.all(x >= 1, x < c))
+            parts["C09"].append(ctx.all(x >= 1, x < c))
         if st["state"] == "BEFORE_OPEN":
-            conds.append(c == 1)
+            parts["C08"].append(c == 1)
         if st["state"] == "BINDING":
-            conds.append(len(O) <= 1)
+            parts["C08"].append(len(O) <= 1)
             for x in O:
-                conds.append(x == c - 1)
+                parts["C08"].append(x == c - 1)
+    return parts
+
+
+def invariant(ctx, st, side, owner=None):
+    parts = invariant_parts(ctx, st, side)
+    conds = [c for k, v in parts.items() if owner is None or k == owner for c in v]
     return ctx.all(*conds) if conds else True
 
 
@@ -694,11 +704,13 @@ def run_step(ctx, shape, props):
     ps = (shape["pre"][0], shape["pre"][1], tuple(shape["pre"][2]))
     sess = make_pre(ctx, side, ps)
     pre = read(ctx, sess, side)
-    ctx.require(invariant(ctx, pre, side), "harness:pre-state-violates-invariant")
+    # (symbolic run: true by construction; replay: a tree on which the public-API history does not
+    # lead to this abstract state cannot confirm the counterexample - it is then not reported)
+    ctx.assume(invariant(ctx, pre, side))
     info = do_op(ctx, sess, side, shape["op"], "op")
     post = read(ctx, sess, side)
     check_step(ctx, side, pre, info, post, props)
-    ctx.require(invariant(ctx, post, side), f"{props[0]}:invariant-not-preserved")
+    ctx.require(invariant(ctx, post, side, props[0]), f"{props[0]}:invariant-not-preserved")
 
 
 def run_bmc(ctx, shape, props):
@@ -706,10 +718,10 @@ def run_bmc(ctx, shape, props):
     S = ctx.L.session
     sess = S.LDAPClient() if side == "client" else S.LDAPServer()
     st = read(ctx, sess, side)
-    ctx.require(invariant(ctx, st, side), f"{props[0]}:initial-state-violates-invariant")
+    ctx.require(invariant(ctx, st, side, props[0]), f"{props[0]}:initial-state-violates-invariant")
     for i, op in enumerate(shape["ops"]):
         pre = read(ctx, sess, side)
         info = do_op(ctx, sess, side, op, f"s{i}")
         post = read(ctx, sess, side)
         check_step(ctx, side, pre, info, post, props, tag=f"{i}:")
-        ctx.require(invariant(ctx, post, side), f"{props[0]}:invariant-not-preserved")
+        ctx.require(invariant(ctx, post, side, props[0]), f"{props[0]}:invariant-not-preserved")
